@@ -98,10 +98,10 @@ impl Property for C04 {
         FAULTS
     }
     fn lattice_size(&self) -> u32 {
-        8 * 4 * 4 * DrawableSpec::KINDS
+        8 * crate::dev::N_DISC * 4 * DrawableSpec::KINDS
     }
     fn lattice_desc(&self) -> &'static str {
-        "capability set (8) x consumption discipline (4) x stack depth (0..=3) x drawable kind (16)"
+        "capability set (8) x consumption discipline (5) x stack depth (0..=3) x drawable kind (16)"
     }
     fn sub_eval_name(&self) -> &'static str {
         "fault_injections"
